@@ -411,6 +411,8 @@ func tasks4(tier string) []task4 {
 			ts = append(ts, task4{"skip-only " + n.Chain, func(c *fw.Ctx, idx int) { skipOnly(c, n) }})
 		}
 	}
+	ts = append(ts, task4{"length-sweep", func(c *fw.Ctx, idx int) { lengthSweep(c) }})
+	ts = append(ts, task4{"projection-after-bank-reuse", func(c *fw.Ctx, idx int) { runProjectionReuse(c) }})
 	wu := wideUnion()
 	ts = append(ts, task4{"skip-only " + wu.Chain, func(c *fw.Ctx, idx int) { skipOnly(c, wu) }})
 	p := pool()
@@ -473,7 +475,7 @@ func init() {
 		ID:    "C04",
 		Level: "exploration",
 		Rule: func(tier string) string {
-			return "(1) codec level: for every schema node of the C03 universe, every datum and every legal serialisation (first 256 per datum in quick; thorough: all at depth<=1, first 20000 at depth 2, first 256 at depth 3) followed by a 3-byte tail, ReadBuf.Len() after Codec.Read, after reading through a record codec whose struct lacks the field (skip path), and after Codec.Skip must all equal the reference decoder's consumption; (2) file level: writer schemas record{a:X, b:Y, z:long, Z:string} (the column Z differs from z only in case and has no counterpart in any target) for every ordered pair (X,Y) of a 20-schema pool (primitives, nullable int/boolean into narrow non-pointer fields, fixed, arrays/maps incl. nested and nullable items, unions null-first/null-second/multi-branch, records, arrays of records; and, skip-only, a 130-branch union with every branch selected so that two-byte selectors occur) and the nested form record{r:record{a:X,b:Y}, z}; 3-record reference-written files in every encoding variant with <=2 writer-side deviations, rotating over block partitions and codecs; every projection of the full target struct: every subset of fields deleted × every permutation of the rest × {nothing, or one added field of kind int64/string/*int64/[]string/map[string]int64/struct, an embedded struct whose field names collide with the columns (before and after the kept fields), an unexported field tagged with a column's name}; every fifth projection build is preceded by a build that fails half-way (a struct with the same column names and unusable types); oracle: remaining fields equal gv.Expect, added fields zero, same record count, nil error (the trailing sync check makes a mis-sized skip visible); non-trivial = a distinct (file, projection) or (encoding) that reached the comparison"
+			return "(1) codec level: for every schema node of the C03 universe, every datum and every legal serialisation (first 256 per datum in quick; thorough: all at depth<=1, first 20000 at depth 2, first 256 at depth 3) followed by a 3-byte tail, ReadBuf.Len() after Codec.Read, after reading through a record codec whose struct lacks the field (skip path), and after Codec.Skip must all equal the reference decoder's consumption — and the same for string, bytes, map keys, [null,string] and array<string> at EVERY length 0..1100 and 2^k-1, 2^k, 2^k+1 up to 2^21 (the length prefix is itself a varint); (2) file level: writer schemas record{a:X, b:Y, z:long, Z:string} (the column Z differs from z only in case and has no counterpart in any target) for every ordered pair (X,Y) of a 20-schema pool (primitives, nullable int/boolean into narrow non-pointer fields, fixed, arrays/maps incl. nested and nullable items, unions null-first/null-second/multi-branch, records, arrays of records; and, skip-only, a 130-branch union with every branch selected so that two-byte selectors occur) and the nested form record{r:record{a:X,b:Y}, z}; 3-record reference-written files in every encoding variant with <=2 writer-side deviations, rotating over block partitions and codecs; every projection of the full target struct: every subset of fields deleted × every permutation of the rest × {nothing, or one added field of kind int64/string/*int64/[]string/map[string]int64/struct, an embedded struct whose field names collide with the columns (before and after the kept fields), an unexported field tagged with a column's name}; every fifth projection build is preceded by a build that fails half-way (a struct with the same column names and unusable types); (3) a file WITH two nested columns read with banks closed per record, then files WITHOUT them — every sequence of <=4 rows holding 0/1/3 nested records — read into the same Go type from the recycled banks: the absent fields of reader-allocated records are zero; oracle: remaining fields equal gv.Expect, added fields zero, same record count, nil error (the trailing sync check makes a mis-sized skip visible); non-trivial = a distinct (file, projection) or (encoding) that reached the comparison"
 		},
 		Assumptions: []string{
 			"the expected value of every remaining field is computed by gv.Expect from the datum (stronger than, and implying, the differential 'same as the full decode')",
